@@ -1270,9 +1270,9 @@ def _relaxed_dist(case):
 
 
 @subcheck("C19", "relaxed_identities", _relaxed_dist_strategy, 800, 20000,
-          doc="LogisticBernoulli / GumbelOneHotCategorical, all parameterisations, uniforms scripted as k/2^24 incl. 0 and 1-2^-24: threshold(csample(b)) == b for every b; log_prob(z) == tlog_prob(H(z)) + clog_prob(z, H(z)); clog_prob(z, b) == -inf iff H(z) != b; tlog_prob == exact log P(b); samples lie in the (thresholded) support; 1 case in 6 with a batch of 15..1025 (2049) / 15..1025 (2049) categories from rules (then the first, the last and one generated category are conditioned on, not all); parameters as transposed / offset / expanded views, conditioning values and relaxed samples as transposed / offset views; logits of magnitude 16 / 30 (60)",
+          doc="LogisticBernoulli / GumbelOneHotCategorical, all parameterisations, uniforms scripted as k/2^24 incl. 0 and 1-2^-24: threshold(csample(b)) == b for every b; log_prob(z) == tlog_prob(H(z)) + clog_prob(z, H(z)); clog_prob(z, b) == -inf iff H(z) != b; tlog_prob == exact log P(b); samples lie in the (thresholded) support; 1 case in 6 with a batch of 15..1025 (2049) / 15..1025 (2049) categories from rules (then the first, the last and one generated category are conditioned on, not all); parameters as transposed / offset / expanded views, conditioning values and relaxed samples as transposed / offset views; logits of magnitude 16 / 30 (60); expand() of the used object and of a fresh one: same threshold probabilities, same density, factorisation, samples in the support",
           required_classes=["bernoulli", "categorical", "boundary_uniform", "float32", "float64",
-                            "big_B", "big_V", "param_transposed", "param_offset", "param_expanded",
+                            "big_B", "big_V", "param_transposed", "param_offset", "param_expanded", "expanded_copies",
                             "b_transposed", "b_offset", "extreme_logits"])
 def _relaxed_dist_check(case):
     import torch
@@ -1348,7 +1348,36 @@ def _relaxed_dist_check(case):
             isinf = cl == float("-inf")
             require(bool((isinf == ~same).all()), "clog_prob(z, b) must be -inf exactly where H(z) != b",
                     cl.tolist() if cl.numel() <= 64 else None, same.tolist() if same.numel() <= 64 else None)
-    classes = [case["which"], case["dtype"], "param_" + case["param"]]
+    # expanded copies are the same distribution with more batch dimensions: one taken from the used object (its lazily
+    # derived parameterisation is cached by now), one from a fresh object
+    fresh, _ = _relaxed_dist(case)
+    for name, src in (("after use", d), ("fresh", fresh)):
+        e = src.expand(torch.Size([2, B]))
+        require(tuple(e.batch_shape) == (2, B), "expand(): batch shape", list(e.batch_shape), [2, B])
+        for bi, bb in zip(ks, all_b):
+            b0 = bb[0]
+            lp = e.tlog_prob(b0.unsqueeze(0).expand(2, *b0.shape))
+            ref = d.tlog_prob(bb)[0]
+            require(tuple(lp.shape) == (2, B), "tlog_prob shape on the expanded distribution (%s)" % name, list(lp.shape), [2, B])
+            err = (lp - ref.unsqueeze(0)).abs().max().item() if B else 0.0
+            require(err <= (2e-5 if f32 else 1e-9) * (1 + ref.abs().max().item()),
+                    "expanded distribution (%s) assigns other threshold probabilities than the original" % name,
+                    lp.tolist() if lp.numel() <= 64 else err, ref.tolist() if ref.numel() <= 64 else None)
+        with fakes.scripted_uniform([k / TWO24 for k in case["u"]]):
+            ze = e.rsample()
+        require(tuple(ze.shape) == ((2, B) if bern else (2, B, V)) and bool(e.support.check(ze).all()),
+                "sample of the expanded distribution (%s): shape / support" % name, list(ze.shape), None)
+        he = e.threshold(ze)
+        lhs, rhs = e.log_prob(ze), e.tlog_prob(he) + e.clog_prob(ze, he)
+        mag = 1 + lhs.abs().max().item() + ze.abs().max().item()
+        if not bern:
+            mag += float((d.logits.unsqueeze(0) - ze).exp().max())
+        # the density of the expanded copy is the original's density
+        orig = d.log_prob(ze)
+        require((lhs - rhs).abs().max().item() <= tol * mag and (lhs - orig).abs().max().item() <= tol * mag,
+                "expanded distribution (%s): log_prob(z) != tlog_prob + clog_prob, or != the original's log_prob(z)" % name,
+                lhs.tolist() if lhs.numel() <= 64 else None, [rhs.tolist(), orig.tolist()] if lhs.numel() <= 64 else None)
+    classes = [case["which"], case["dtype"], "param_" + case["param"], "expanded_copies"]
     if any(k in (0, 1, TWO24 - 1) for k in case["u"] + case["v"]):
         classes.append("boundary_uniform")
     if case["validate"]:
